@@ -284,7 +284,7 @@ async fn exec_op(h: &mut Handles, op: Op) -> Res {
         }
         Op::CallAbandon(t, id) => {
             let polled = match t {
-                H::Addr(_) => match h.addr_of(t) {
+                H::Addr(_) | H::Own(_) => match h.addr_of(t) {
                     Some(a) => futures::poll!(std::pin::pin!(a.call(Ask(id)))),
                     None => return EMPTY,
                 },
